@@ -96,10 +96,14 @@ def check(case):
         m, solved, exc = None, False, "%s: %s" % (type(e).__name__, str(e)[:200])
     if not solved:
         why = classify_cap(I, m, "mpe", k, None) if (m is not None and opt is not None) else None
+        if why is None and A.dead_nodes(I):
+            why = "the graph has a node that lies on no source-to-sink walk"
+        if why is None and m is not None and A.fractional_cap(m):
+            why = "the library's own repetition cap is a non-integral upper bound on an integer edge variable"
         if opt is None:
             return dict(ok=None, nontrivial=False, what="harness: oracle finds no feasible choice although k >= covering number | %s" % I.describe())
         status = exc or getattr(getattr(m, "solver", None), "get_model_status", lambda: "?")()
-        return fail("%s unsolved for k >= covering number: %s" % (cls, why) if why else ("%s raised for k >= covering number" % cls if exc else "%s unsolved for k >= covering number" % cls),
+        return fail(("%s raised for k >= covering number" if exc else "%s unsolved for k >= covering number") % cls + (": " + why if why else ""),
                     "status %s; covering number %s, k=%s, spec optimum %s | %s" % (status, w, I.k, opt, I.describe()), oracle=str(opt), width=w)
     if I.k is None and getattr(m, "k", None) != w:
         return fail("%s with k=None does not use the covering number" % cls, "model k = %s, covering number %s | %s" % (getattr(m, "k", None), w, I.describe()))
